@@ -240,7 +240,7 @@ impl PropImpl for C10 {
          3 versions x 3 fixed layouts x 3 contexts (5184). Non-trivial: >= 2 entries or alternatives, or a relation with >= 2 optional parts. Distinct by text hash.".into()
     }
     fn expected_labels(&self) -> Vec<&'static str> {
-        vec!["layout:L0", "layout:L1", "layout:L2", "has:substvar", "has:empty-entry", "has:alternatives", "part:archqual", "part:version", "part:epoch", "part:tilde", "part:hyphen-in-upstream-version", "part:epoch+hyphen-in-upstream-version", "part:architectures", "part:negated-architecture", "part:profiles", "part:several-profile-groups", "part:multi-term-profile-group", "op:<<", "op:<=", "op:=", "op:>=", "op:>>", "has:newline", "has:tab"]
+        vec!["layout:L0", "layout:L1", "layout:L2", "has:substvar", "has:empty-entry", "has:alternatives", "part:archqual", "part:version", "part:epoch", "part:tilde", "part:hyphen-in-upstream-version", "part:epoch+hyphen-in-upstream-version", "part:architectures", "part:negated-architecture", "part:profiles", "part:several-profile-groups", "part:multi-term-profile-group", "op:<<", "op:<=", "op:=", "op:>=", "op:>>", "has:newline", "has:tab", "size:300-or-more-entries"]
     }
     fn budget(&self, tier: Tier) -> Budget {
         Budget { cases_per_lane: if tier == Tier::Quick { 45000 } else { 180000 }, tape_max: 500, cpu_s: 10 }
@@ -253,7 +253,18 @@ impl PropImpl for C10 {
     }
     fn decode(&self, _ctx: &mut Ctx, t: &mut Tape) -> Case {
         let o = RelOpts { max_layout: Layout::L2, ..Default::default() };
-        let (field, text, layout) = rel::gen_field(t, &o);
+        let (mut field, mut text, layout) = rel::gen_field(t, &o);
+        if t.chance(1, 150) && field.items.iter().any(|i| matches!(i, rel::Item::Entry(_))) {
+            // a very long field (hundreds to thousands of entries, tens of kilobytes): the same items again and again
+            let n = *t.pick(&[300usize, 1600, 3000]);
+            let base: Vec<rel::Item> = field.items.iter().filter(|i| matches!(i, rel::Item::Entry(_) | rel::Item::Substvar(_))).cloned().collect();
+            let mut items = vec![];
+            while items.len() < n {
+                items.extend(base.iter().cloned());
+            }
+            field.items = items;
+            text = rel::render_field(t, &field, layout, &o);
+        }
         Case { field, text, layout: match layout { Layout::L0 => "L0", Layout::L1 => "L1", Layout::L2 => "L2", Layout::L3 => "L3" } }
     }
     fn classify(&self, ctx: &mut Ctx, case: &Case) {
@@ -262,6 +273,7 @@ impl PropImpl for C10 {
         let entries = f.entries();
         ctx.label(match case.layout { "L0" => "layout:L0", "L1" => "layout:L1", "L2" => "layout:L2", "E-canonical" => "layout:E-canonical", "E-wide" => "layout:E-wide", _ => "layout:E-tight" });
         ctx.label_if(f.has_substvar(), "has:substvar");
+        ctx.label_if(entries.len() >= 300, "size:300-or-more-entries");
         ctx.label_if(f.has_empty(), "has:empty-entry");
         ctx.label_if(entries.iter().any(|e| e.len() > 1), "has:alternatives");
         for r in f.rels() {
